@@ -430,6 +430,34 @@ func (c *Ctx) foundBool(v ssa.Value, id ssa.Value, depth int) bool {
 	return okAll && nTrue > 0
 }
 
+// foundFlag: v loads a boolean local (possibly captured by the closure that does the lookup)
+// whose every assignment of a value other than false is itself witnessed for the id
+// (marked := false; …{ if m := messages[id]; m != nil { …; marked = true } }; if !marked { … }).
+func (c *Ctx) foundFlag(v ssa.Value, id ssa.Value) bool {
+	ad := eng.LoadAddr(v)
+	if ad == nil {
+		return false
+	}
+	cell := eng.CellOf(ad)
+	if cell == nil {
+		return false
+	}
+	if b, isB := cell.Type().(*types.Pointer).Elem().Underlying().(*types.Basic); !isB || b.Kind() != types.Bool {
+		return false
+	}
+	n := 0
+	for _, st := range eng.CellStores(cell) {
+		if bv, isC := eng.ConstBool(st.Val); isC && !bv {
+			continue
+		}
+		n++
+		if _, ok := c.foundWitnessAt(st, id); !ok {
+			return false
+		}
+	}
+	return n > 0
+}
+
 // foundWitness: ret is dominated by an id-equality edge or by `p != nil` with foundPtr(p).
 func (c *Ctx) foundWitness(ret *ssa.Return, id ssa.Value) (string, bool) {
 	return c.foundWitnessDepth(ret, id, 0)
@@ -447,6 +475,9 @@ func (c *Ctx) foundWitnessDepth(ret *ssa.Return, id ssa.Value, depth int) (strin
 			}
 			if v, pol, ok := eng.CondTruth(b, k); ok && pol && c.foundBool(v, id, depth) {
 				return "true result of a finder for this id at " + c.P.InstrPos(eng.IfOf(b)), true
+			}
+			if v, pol, ok := eng.CondTruth(b, k); ok && pol && c.foundFlag(v, id) {
+				return "flag set only where the message was found, tested at " + c.P.InstrPos(eng.IfOf(b)), true
 			}
 			if idEqualityEdge(b, k, id) {
 				if why := c.nonExhaustiveSelection(b, k, id); why != "" {
@@ -909,6 +940,21 @@ func (c *Ctx) c07File(sm *storeModel) {
 			}
 			rc, ok := call.Call.Args[0].(*ssa.Call)
 			if !ok || eng.StaticCallee(rc.Common()) != rawPath {
+				return
+			}
+			// msg.removeRaw(): the helper unlinks rawPath() of the message it is given
+			if mp, isP := eng.StripConv(resolveCell(rc.Call.Args[0])).(*ssa.Parameter); isP && mp.Parent() == g {
+				pi := eng.ParamIndex(mp)
+				if pi < 0 || pi >= len(hc.Call.Args) {
+					return
+				}
+				n++
+				cons := "file:" + shortFn(rm) + "→" + shortFn(g)
+				if a := hc.Call.Args[pi]; c.foundPtr(a, id, hc.Block(), 0) && !eng.IsNilConst(a) {
+					r.Ok("C07/ONLY-NAMED", cons, p.InstrPos(hc), "%s unlinks rawPath() of the message it is given; removeMessage passes the element selected under the id-equality branch", shortFn(g))
+				} else {
+					r.Bad("C07/ONLY-NAMED", cons, p.InstrPos(hc), "the message handed to %s is not the element found by id: another message's raw file is unlinked", shortFn(g))
+				}
 				return
 			}
 			u, ok := resolveCell(rc.Call.Args[0]).(*ssa.UnOp)
